@@ -129,4 +129,58 @@ example :
     (match burnCoins red bur s 4 1 with | .error .noPermission => True | _ => False) := by
   simp [burnCoins, upd, distr]
 
+/-! ### a redirected burn of several denominations at once
+
+`BurnCoins(gov | bonded | not-bonded, coins)` with more than one coin: all coins move to the distribution account in one
+send, and the stored fee pool is read once, every coin added to its community pool, and written once.  Denominations are
+numbered; `pool d` is the community pool's amount of denomination d. -/
+
+/-- the fee pool after adding the coins one by one to the pool read at the start (what the code does) -/
+def fundPool (pool : Nat → Nat) : List (Nat × Nat) → Nat → Nat
+  | [] => pool
+  | (d, a) :: rest => fundPool (upd pool d (pool d + a)) rest
+
+/-- what a coin list holds of one denomination -/
+def amountOf (coins : List (Nat × Nat)) (d : Nat) : Nat := (coins.filter (·.1 == d)).foldl (fun s c => s + c.2) 0
+
+theorem foldl_add_shift (l : List (Nat × Nat)) (x y : Nat) :
+    l.foldl (fun s c => s + c.2) (x + y) = l.foldl (fun s c => s + c.2) x + y := by
+  induction l generalizing x with
+  | nil => rfl
+  | cons c rest ih => simp only [List.foldl_cons]; rw [show x + y + c.2 = x + c.2 + y by omega]; exact ih _
+
+/-- **the community pool grows by exactly the burned amount, per denomination**, for every coin list — sorted or not,
+    with repeated denominations or not -/
+theorem fundPool_exact (coins : List (Nat × Nat)) : ∀ (pool : Nat → Nat) (d : Nat),
+    fundPool pool coins d = pool d + amountOf coins d := by
+  induction coins with
+  | nil => intro pool d; simp [fundPool, amountOf]
+  | cons c rest ih =>
+    intro pool d
+    obtain ⟨cd, ca⟩ := c
+    simp only [fundPool]
+    rw [ih]
+    unfold amountOf
+    by_cases h : cd = d
+    · subst h
+      simp only [upd_same, List.filter_cons, beq_self_eq_true, if_true, List.foldl_cons, Nat.zero_add]
+      have := foldl_add_shift (rest.filter (·.1 == cd)) 0 ca
+      simp only [Nat.zero_add] at this
+      rw [this]; omega
+    · have hne : (cd == d) = false := by simp [h]
+      rw [upd_other _ _ _ _ (fun e => h e.symm)]
+      simp [hne]
+
+/-- the shape that loses updates: every coin's result is computed from the pool read at the start and stored over the
+    previous one — only the last coin reaches the pool -/
+def fundPoolLostUpdate (pool : Nat → Nat) : List (Nat × Nat) → Nat → Nat
+  | [] => pool
+  | [(d, a)] => upd pool d (pool d + a)
+  | _ :: rest => fundPoolLostUpdate pool rest
+
+theorem lost_update_counterexample :
+    fundPoolLostUpdate (fun _ => 0) [(0, 1000000), (1, 777)] 0 = 0 ∧ fundPool (fun _ => 0) [(0, 1000000), (1, 777)] 0 = 1000000 ∧
+    fundPool (fun _ => 0) [(0, 1000000), (1, 777)] 1 = 777 := by
+  simp [fundPoolLostUpdate, fundPool, upd]
+
 end Haqq.Ledger
